@@ -227,3 +227,104 @@ class RefMDP:
         if not pos.any():
             return 0.0
         return float(np.abs(self.R[pos]).max())
+
+
+# ---------------------------------------------------------------------------------------------
+# average reward (gain) — absorbing states are zero-reward self-loops
+# ---------------------------------------------------------------------------------------------
+def _closed_classes(pos):
+    """closed communicating classes of a chain with positivity pattern `pos` (n x n bool)."""
+    n = pos.shape[0]
+    reach = RefMDP._reach(pos)
+    classes = []
+    seen = set()
+    for s in range(n):
+        if s in seen:
+            continue
+        cls = [t for t in range(n) if reach[s, t] and reach[t, s]]
+        closed = all(reach[t, s] for t in range(n) if reach[s, t])
+        if closed:
+            classes.append(cls)
+            seen.update(cls)
+    return classes, reach
+
+
+def gain_of_policy(ref, pi):
+    """Per-state long-run average reward of stochastic policy pi (Cesaro limit), exact up to
+    linear solves. Returns (gain vector, number of closed classes)."""
+    n = ref.n
+    P = np.einsum("san,sa->sn", ref.T, pi)
+    r = np.einsum("sa,sa->s", ref.SR, pi)
+    pos = np.einsum("san,sa->sn", (ref.W > 0).astype(float), (pi > 0).astype(float)) > 0
+    for s in range(n):
+        if ref.absorbing[s]:
+            P[s] = 0
+            P[s, s] = 1
+            r[s] = 0
+            pos[s] = False
+            pos[s, s] = True
+    classes, reach = _closed_classes(pos)
+    g_class = []
+    for cls in classes:
+        k = len(cls)
+        Pc = P[np.ix_(cls, cls)]
+        A = np.vstack([Pc.T - np.eye(k), np.ones((1, k))])
+        b = np.zeros(k + 1)
+        b[-1] = 1
+        mu = np.linalg.lstsq(A, b, rcond=None)[0]
+        g_class.append(float(mu @ r[cls]))
+    rec = sorted(s for cls in classes for s in cls)
+    trans = [s for s in range(n) if s not in rec]
+    g = np.zeros(n)
+    for cls, gc in zip(classes, g_class):
+        g[cls] = gc
+    if trans:
+        Ptt = P[np.ix_(trans, trans)]
+        rhs = np.zeros(len(trans))
+        for cls, gc in zip(classes, g_class):
+            rhs += P[np.ix_(trans, cls)].sum(axis=1) * gc
+        g[trans] = np.linalg.solve(np.eye(len(trans)) - Ptt, rhs)
+    return g, len(classes)
+
+
+def optimal_gain_enumeration(ref):
+    pols = ref.det_policies(frozen=ref.absorbing)
+    best = np.full(ref.n, -np.inf)
+    max_classes = 0
+    for pol in pols:
+        g, k = gain_of_policy(ref, ref.policy_matrix_from_det(pol))
+        best = np.maximum(best, g)
+        max_classes = max(max_classes, k)
+    return best, max_classes
+
+
+def optimal_gain_lp(ref):
+    """Multichain average-reward LP (Puterman 9.3): min sum_j g_j s.t. g_s >= sum_j p(j|s,a) g_j,
+    g_s + h_s >= r(s,a) + sum_j p(j|s,a) h_j for all available (s, a)."""
+    from scipy.optimize import linprog
+    n = ref.n
+    rows, rhs = [], []
+    for s in range(n):
+        for a in range(ref.m):
+            if not ref.avail[s, a]:
+                continue
+            if ref.absorbing[s]:
+                p = np.zeros(n)
+                p[s] = 1.0
+                rew = 0.0
+            else:
+                p = ref.T[s, a]
+                rew = ref.SR[s, a]
+            e = np.zeros(n)
+            e[s] = 1
+            # -(g_s - p g) <= 0
+            rows.append(np.concatenate([-(e - p), np.zeros(n)]))
+            rhs.append(0.0)
+            # -(g_s + h_s - p h) <= -r
+            rows.append(np.concatenate([-e, -(e - p)]))
+            rhs.append(-rew)
+    c = np.concatenate([np.ones(n), np.zeros(n)])
+    res = linprog(c, A_ub=np.array(rows), b_ub=np.array(rhs), bounds=[(None, None)] * (2 * n), method="highs")
+    if res.status != 0:
+        raise AssertionError(f"gain LP failed: {res.message}")
+    return res.x[:n]
